@@ -312,6 +312,11 @@ def project(raw_events, scenario, bound=None):
             o.update(e="Terminate", base=ev.get("base", ""), gen=ev.get("gen", 0), pk=ev.get("kind", ""), err=ev.get("err", ""))
         elif kind == "KillCall":
             o.update(e="KillCall", base=ev.get("base", ""), gen=ev.get("gen", 0), pk=ev.get("kind", ""), err=ev.get("err", ""))
+        elif kind == "KillRet" and ev.get("err") == "deadline":
+            # the supervisor refused the request because the deadline it carried had already passed (the process is
+            # still there): the emulator always gives the supervisor time to act - no action of the specification
+            # corresponds to such a request
+            o.update(e="KillRefused", base=ev.get("base", ""), gen=ev.get("gen", 0), pk=ev.get("kind", ""))
         elif kind == "Tel":
             tk = ev.get("kind")
             if tk == "ExtensionInit":
